@@ -345,12 +345,12 @@ CHAIN_TYPES = [("Int", ["Optional", "Str"]), (["Literal", "a", "b"], ["Literal",
 
 def check_chains(rec):
     """Three-level chains: the offending override sits in a class BETWEEN the checked leaf and the ancestor
-    (A: an intermediate class widens a field without declaring it; B: an intermediate class narrows Optional[T] to T by
+    (A: an intermediate class widens a field without declaring it; A': the leaf widens a field of its GRANDPARENT that the class in between does not mention; B: an intermediate class narrows Optional[T] to T by
     @make_mandatory and the leaf re-declares Optional[T] without declaring it). If the plugin check accepts the leaf,
     no value accepted by the leaf may be rejected by any ancestor after serialisation."""
     n = 0
     for narrow, wide in CHAIN_TYPES:
-        for kind in ("widen-in-middle", "mandatory-then-optional"):
+        for kind in ("widen-in-middle", "mandatory-then-optional", "widen-grandparent-field"):
             case = {"kind": "chain", "chain": kind, "narrow": narrow, "wide": wide}
             try:
                 if kind == "widen-in-middle":
@@ -360,6 +360,14 @@ def check_chains(rec):
                     M = sl.make_class(f"CM{next(_counter)}", P, {"f": wide})
                     L = sl.make_class(f"CL{next(_counter)}", M, {"g": ["Optional", "Int"]})
                     probe = [{"f": v} for v in values_for(narrow, wide, P, M)]
+                elif kind == "widen-grandparent-field":
+                    # the field comes from the grandparent; the class in between does not mention it
+                    P = sl.make_class(f"CP{next(_counter)}", sl.MetadataSchema, {"f": narrow})
+                    if plugin_check(P) is not None:
+                        continue
+                    M = sl.make_class(f"CM{next(_counter)}", P, {"g": ["Optional", "Int"]})
+                    L = sl.make_class(f"CL{next(_counter)}", M, {"f": wide})
+                    probe = [{"f": v} for v in values_for(narrow, wide, P, L)]
                 else:
                     P = sl.make_class(f"CP{next(_counter)}", sl.MetadataSchema, {"f": ["Optional", narrow]})
                     if plugin_check(P) is not None:
